@@ -118,3 +118,16 @@ PY
   fi
   tail -1 "$W/race.log" >&2
 }
+
+# free_pass : every C10 scenario on the UN-instrumented processing package, free running (conformance of the instrumentation)
+free_pass() {
+  cat > "$W/rt-overlay.json" <<EOT
+{"Replace": {"$REPO/zzverif/vsrt/vsrt.go": "$ENGINE/overlay/vsrt.go.src", "$REPO/zzverif/vsync/vsync.go": "$ENGINE/overlay/vsync.go.src"}}
+EOT
+  (cd $ENGINE && go build -modfile="$W/engine.mod" -overlay "$W/rt-overlay.json" -tags "verif instr" -o "$W/pipemc-free" ./cmd/pipemc) || { echo "HARNESS-ERROR: un-instrumented build of pipemc failed" >&2; exit 2; }
+  export VERIF_FREE_RESULT="$W/free.json"
+  "$W/pipemc-free" free 2> "$W/free.log"
+  local rc=$?
+  if [ $rc -ne 0 ]; then cat "$W/free.log" >&2; echo "HARNESS-ERROR: free-running conformance pass crashed (exit $rc)" >&2; exit 2; fi
+  tail -1 "$W/free.log" >&2
+}
